@@ -69,7 +69,10 @@ def run(ctx):
         theta = rng.choice([45, 60, 90, 120]); K = rng.randint(2, 7)
         Y = [[rng.randint(-8, 8) / 4.0, rng.randint(-8, 8) / 4.0] for _ in range(K)]
         a = build(theta, K, 0.1, 0.1, 0.01, Y)
-        a.L = rng.choice([1, 2, 4, 8])
+        a.L = rng.choice([1, 2, 4, 8, 12])
+        # P may be read at any time: after every round, or only now and then (several rounds between two reads)
+        every = rng.random() < 0.4
+        read_at = set(range(a.L)) if every else ({t for t in range(a.L) if rng.random() < 0.35} | {a.L - 1})
         obs = []
         def ev(x, noisy=True, _Y=np.array(Y)):
             r = _Y + np.array([[rng.randint(-4, 4) / 8.0, rng.randint(-4, 4) / 8.0] for _ in range(len(_Y))])
@@ -77,19 +80,21 @@ def run(ctx):
         a.problem.evaluate = ev
         for t in range(a.L):
             a.run_one_step()
+            if t not in read_at:
+                continue
             P = [int(i) for i in a.P]
             means = np.mean(np.array(obs), axis=0)
             st["P_checks"] += 1
             W = a.order.ordering_cone.W
             lines.append(f"pareto_fast {common.enc([[F(x) for x in r] for r in W])} {common.enc([[F(x) for x in r] for r in means])}")
-            meta.append((P, means.tolist(), theta))
+            meta.append((P, means.tolist(), theta, t + 1, sorted(x + 1 for x in read_at if x <= t)))
     outp = ctx.model(lines)
-    for (P, means, theta), o in zip(meta, outp):
+    for (P, means, theta, rnd, reads), o in zip(meta, outp):
         ref = common.dec(o)
         if P != ref:
-            viol.append({"signature": "naive-P-not-pareto-of-means", "message": f"NaiveElimination.P = {P} but the Pareto set of the sample means {means} (theta={theta}) is {ref}", "replay": {"kind": "P", "means": means, "theta": theta}})
+            viol.append({"signature": "naive-P-not-pareto-of-means", "message": f"NaiveElimination.P = {P} after round {rnd} (P was read after rounds {reads}) but the Pareto set of the sample means {means} (theta={theta}) is {ref}", "replay": {"kind": "P", "means": means, "theta": theta, "round": rnd, "reads": reads}})
     return {"correspondence_broken": cb, "evaluations": sum(st.values()), "distinct_nontrivial": st["L_points"] + st["P_checks"],
-            "rule": "grid of (theta 5..170 degrees, K, eps, delta, noise variance below and above 1): algorithm.L must be the ceiling of the regenerated formula (interval tactic), and the closed-form one-facet lower bound of the failure probability of a two-design instance with gap 1.0001 eps must not exceed delta; runs with scripted dyadic observations: after every round P must equal the extracted Pareto set of the per-design sample means; non-trivial = L points + P checks",
+            "rule": "grid of (theta 5..170 degrees, K, eps, delta, noise variance below and above 1): algorithm.L must be the ceiling of the regenerated formula (interval tactic), and the closed-form one-facet lower bound of the failure probability of a two-design instance with gap 1.0001 eps must not exceed delta; runs with scripted dyadic observations: whenever P is read (after every round, or irregularly with several rounds between reads) it must equal the extracted Pareto set of the per-design sample means; non-trivial = L points + P checks",
             "samples": [{"theta": g[0], "K": g[1], "eps": g[2], "delta": g[3], "noise_var": g[4]} for g in grid[:3]], "violations": viol, "extra": st}
 
 
